@@ -82,7 +82,7 @@ Lemma xlo_wf n g v nw spv :
   spells' 50 v spv -> (Z.of_nat (len spv) < 2147483000)%Z -> (forall d p, v <> OStream d p) ->
   wf_obj ((n, g), v) (xlo nw spv).
 Proof.
-  intros H1 H2 H3 H4 Sp Sz Ns. unfold wf_obj, xlo. cbn [fst snd lo_nw lo_gw lo_w1 lo_w2 lo_w3 lo_w4 lo_sp].
+  intros H1 H2 H3 H4 Sp Sz Ns. unfold wf_obj, wf_obj_k, xlo. cbn [fst snd lo_nw lo_gw lo_w1 lo_w2 lo_w3 lo_w4 lo_sp].
   repeat split; try assumption; try lia; try discriminate; try ex_ws.
   - cbn. lia.
   - destruct v; try (split; [exact Sp|left; discriminate]). exfalso. eapply Ns. reflexivity.
